@@ -369,3 +369,10 @@ def run(ctx):
     ctx.rule("C18.e", "set_dtype validates frequencies and errors2 before it converts anything", 3)
     from rules import c13
     c13.check_set_dtype_checks(ctx, "C18.e", m)
+
+    # an in-place operator must not touch (re-bin, make adaptive, share binnings with) its operand: the operand would end
+    # up with bins and contents of different shapes (ownership analysis shared with C12.d)
+    ctx.rule("C18.f", "in-place operators never mutate or capture their operand", 8)
+    from rules import c12
+    for name in ("__iadd__", "__isub__", "__imul__", "__itruediv__"):
+        c12.check_inplace(ctx, m, "C18.f", "HistogramBase", name)
